@@ -449,6 +449,48 @@ theorem row_typecheck_iff (cs : List Carrier) (ts : List CqlTy) :
 
 theorem row_untyped (ts : List CqlTy) : tcheckRow .untyped ts = none := rfl
 
+/-- **No typed reading without a passed type check**: a typed row iterator exists only if `type_check` of the
+row type against the result's column specs succeeded — for a Rust tuple: as many columns as fields and every
+column accepted by its field's type, at any nesting depth — whatever the number and content of the rows. -/
+theorem typed_iter_checked (rc : RowCarrier) (specs : List CqlTy) (rows : Nat) (it : TypedIter)
+    (h : typedIterNew rc specs rows = .ok it) :
+    it.rc = rc ∧ it.specs = specs ∧ tcheckRow rc specs = none := by
+  unfold typedIterNew at h
+  cases hc : tcheckRow rc specs with
+  | some e => simp [hc] at h
+  | none => simp only [hc, Except.ok.injEq] at h; subst h; exact ⟨rfl, rfl, rfl⟩
+
+/-- … and a mismatching result yields the type-check error and NO iterator: not one row is decoded or
+reinterpreted. -/
+theorem typed_iter_refused (rc : RowCarrier) (specs : List CqlTy) (rows : Nat) (e : TcErr)
+    (h : tcheckRow rc specs = some e) : typedIterNew rc specs rows = .error e := by
+  simp [typedIterNew, h]
+
+/-- For a tuple row type, a handed-out iterator means: equal counts and column-wise acceptance. -/
+theorem typed_iter_cols (cs : List Carrier) (specs : List CqlTy) (rows : Nat) (it : TypedIter)
+    (h : typedIterNew (.cols cs) specs rows = .ok it) :
+    cs.length = specs.length ∧ deserAcceptsZip cs specs = true :=
+  (row_typecheck_iff cs specs).mp (typed_iter_checked _ _ _ it h).2.2
+
+/-- The `expect("Type check should have prevented this!")` in the tuple `deserialize` impls
+(`ensure_tuple_type`) cannot fire on a type-checked column: acceptance of a Rust tuple forces a CQL tuple of
+the same arity. -/
+theorem checked_tuple_arity (cs : List Carrier) (t : CqlTy) (h : deserAccepts (.tuple cs) t = true) :
+    ∃ ts, t = .tuple ts ∧ cs.length = ts.length := by
+  cases t <;> simp [deserAccepts] at h
+  exact ⟨_, rfl, h.1⟩
+
+/-- … and likewise the `unreachable!("Typecheck should have prevented this scenario!")` of the list / vector /
+map readers: the accepted column has the collection kind the reader expects. -/
+theorem checked_collection_kind (c : Carrier) (t : CqlTy) :
+    (deserAccepts (.vec c) t = true → (∃ e, t = .list e) ∨ (∃ e, t = .set e) ∨ ∃ e d, t = .vector e d) ∧
+    (deserAccepts (.hashSet c) t = true → ∃ e, t = .set e) ∧
+    (deserAccepts (.btreeSet c) t = true → ∃ e, t = .set e) := by
+  refine ⟨?_, ?_, ?_⟩ <;> intro h <;> cases t <;> simp [deserAccepts] at h <;> simp
+
+example : typedIterNew (.cols [.scalar .i32, .scalar .str]) [.native .int, .native .blob] 1000
+    = .error ⟨[.col 1], .mismatchedType⟩ := by rfl
+
 /-- On read, sets are not lists and tuples need the exact arity; on write they do not (non-vacuity of the
 difference between the two relations). -/
 example :
